@@ -1,5 +1,6 @@
 import PybropsModel.J
 import PybropsModel.Model.GMap
+import PybropsModel.Model.GMapSpec
 open Lean
 
 /-
@@ -8,7 +9,7 @@ JSON conventions beyond J.lean: a float that may be non-finite is a rational, "i
 a position that may be missing is a rational, `null` or "nan".
 -/
 namespace Drv.C11
-open GMap
+open GMap GMap.Spec
 
 /-! ### Float ⇄ Rat (exact) -/
 
@@ -86,42 +87,6 @@ def fnOf (j : Json) : J.R MapKind := do
 def mapF (h : MapKind) : Float → Float := h.fn
 def invF (h : MapKind) : Float → GDist Float := h.inv
 
-/-! ### tolerant comparison (Spec side) -/
-def absR (a : Rat) : Rat := if a < 0 then -a else a
-def maxR (a b : Rat) : Rat := if a < b then b else a
-
-def closeR (a b : Rat) (rel : Rat := 1 / 1000000000) (abs_ : Rat := 1 / 1000000000000) : Bool :=
-  let d := absR (a - b)
-  d ≤ abs_ || d ≤ rel * maxR (absR a) (absR b)
-
-def closeD (a b : GDist Rat) (rel : Rat := 1 / 1000000000) (abs_ : Rat := 1 / 1000000000000) : Bool :=
-  match a, b with
-  | .fin x, .fin y => closeR x y rel abs_
-  | .inf, .inf => true
-  | .nan, .nan => true
-  | _, _ => false
-
-def closeP (a b : Option Rat) : Bool :=
-  match a, b with
-  | some x, some y => closeR x y
-  | none, none => true
-  | _, _ => false
-
-/-- `a ≤ b` on [0, ∞] (NaN compares false) -/
-def leD (a b : GDist Rat) : Bool :=
-  match a, b with
-  | .fin x, .fin y => x ≤ y
-  | .fin _, .inf => true
-  | .inf, .inf => true
-  | _, _ => false
-
-def checks (l : List (String × Bool)) : Bool × String :=
-  let bad := l.filter (fun p => !p.2)
-  (bad.isEmpty, if bad.isEmpty then "ok" else "violated: " ++ ", ".intercalate (bad.map Prod.fst))
-
-def allPairs (n : Nat) (p : Nat → Nat → Bool) : Bool :=
-  (List.range n).all fun i => (List.range n).all fun j => p i j
-
 /-! ### model ops -/
 
 /-- mapfn / invmapfn evaluated in Float on exactly the doubles the implementation received -/
@@ -130,45 +95,28 @@ def opMapfn : J.Op := fun j => do
   let d ← J.field j "d" (J.list dist)
   let r : List (GDist Float) := d.map fun x => mapD (mapF h) (x.map r2f)
   let inv : List (GDist Float) := r.map (invD (invF h))
-  pure <| J.obj [("r", J.ofList ofDistF r), ("inv", J.ofList ofDistF inv)]
-
-/-- Spec of the map-function clause, on the implementation's r = mapfn(d) and dinv = invmapfn(r):
-    zero ↦ zero, ∞ ↦ ½, range [0, ½], monotone, undone by the inverse (where binary64 can resolve it:
-    d ≤ `dmax`, or d = ∞) -/
-def specMapfn (d r dinv : List (GDist Rat)) (dmax : Rat) : Bool × String :=
-  let n := d.length
-  if r.length != n || dinv.length != n then (false, "length") else
-  let z := d.zip (r.zip dinv)
-  let valid := d.all fun x => leD (.fin 0) x
-  let zero := z.all fun (x, y, _) => !(x == .fin 0) || y == .fin 0
-  let top := z.all fun (x, y, _) => !(x == .inf) || y == .fin (1 / 2)
-  let range := z.all fun (_, y, _) => leD (.fin 0) y && leD y (.fin (1 / 2))
-  let mono := z.all fun (x, y, _) => z.all fun (x', y', _) => !(leD x x') || leD y y'
-  let inv := z.all fun (x, _, w) =>
-    match x with
-    | .inf => w == .inf
-    | .fin a => !(a ≤ dmax) || closeD w (.fin a) (1 / 100000000) (1 / 10000000000)
-    | .nan => false
-  checks [("valid input", valid), ("zero to zero", zero), ("infinity to one half", top),
-          ("range [0,1/2]", range), ("monotone", mono), ("inverse undoes", inv)]
+  -- absolute tolerance of the round trip per distance (null = not resolvable), for the comparator
+  let tol := d.map fun x => match x with
+    | .fin a => (invTol h.kappa a).map (·.abs_)
+    | _ => some 0
+  pure <| J.obj [("r", J.ofList ofDistF r), ("inv", J.ofList ofDistF inv), ("invtol", J.ofList (J.ofOpt J.ofRat) tol)]
 
 def opSpecMapfn : J.Op := fun j => do
   let d ← J.field j "d" (J.list dist)
   let r ← J.field j "r" (J.list dist)
   let dinv ← J.field j "dinv" (J.list dist)
-  let dmax ← J.fieldD j "dmax" J.rat 6
-  let (ok, msg) := specMapfn d r dinv dmax
-  -- the oracle applied to the model's own output (must hold: guards against an over-strict oracle)
   let h ← fnOf j
+  let (ok, msg) := specMapfn h.kappa d r dinv
+  -- the oracle applied to the model's own output (must hold: guards against an over-strict oracle)
   let rm : List (GDist Float) := d.map fun x => mapD (mapF h) (x.map r2f)
   let im : List (GDist Float) := rm.map (invD (invF h))
-  let self := if d.all (fun x => leD (.fin 0) x) then (specMapfn d (rm.map dF2R) (im.map dF2R) dmax).1 else true
+  let self := if d.all (fun x => leD (.fin 0) x) then (specMapfn h.kappa d (rm.map dF2R) (im.map dF2R)).1 else true
   pure <| J.obj [("ok", J.ofBool ok), ("detail", J.ofStr msg), ("self", J.ofBool self)]
 
 def opConstruct : J.Op := fun j => do
   let rows ← J.field j "rows" (J.list row)
   let s := construct rows
-  pure <| J.obj [("rows", J.ofList ofRow s),
+  pure <| J.obj [("rows", J.ofList ofRow s), ("rows3", J.ofList ofRow (lexsort3 rows)),
     ("meta", J.ofList (fun (m : Int × Nat × Nat × Nat) =>
         Json.arr #[J.ofInt m.1, J.ofNat m.2.1, J.ofNat m.2.2.1, J.ofNat m.2.2.2]) (groupMeta s)),
     ("congruence", J.ofList J.ofBool (congruence s))]
@@ -179,6 +127,72 @@ def opInterp : J.Op := fun j => do
   let qphy ← J.field j "qphy" (J.list J.rat)
   pure <| J.obj [("out", J.ofList ofPos (interpGenpos rows qchr qphy)),
                  ("outS", J.ofList ofPos (interpGenposS rows qchr qphy))]
+
+def kindOf (s : String) : J.R SplineKind :=
+  match s with
+  | "linear" => pure .linear
+  | "slinear" => pure .slinear
+  | "previous" => pure .previous
+  | "next" => pure .next
+  | "zero" => pure .zero
+  | "nearest" => pure .nearest
+  | "nearest-up" => pure .nearestUp
+  | s => J.fail s!"spline kind not modelled: {s}"
+
+def opInterpK : J.Op := fun j => do
+  let kind ← kindOf (← J.field j "spline_kind" J.str)
+  let rows ← J.field j "rows" (J.list row)
+  let qchr ← J.field j "qchr" (J.list J.int)
+  let qphy ← J.field j "qphy" (J.list J.rat)
+  pure <| J.obj [("out", J.ofList ofPos (interpGenposK kind rows qchr qphy))]
+
+def ofMeta (rows : List (Row Rat Int)) : Json :=
+  J.ofList (fun (m : Int × Nat × Nat × Nat) =>
+    Json.arr #[J.ofInt m.1, J.ofNat m.2.1, J.ofNat m.2.2.1, J.ofNat m.2.2.2]) (groupMeta rows)
+
+/-- a history of editing calls on one map object; one snapshot per call -/
+def opEdit : J.Op := fun j => do
+  let rows ← J.field j "rows" (J.list row)
+  let ag ← J.fieldD j "auto_group" J.bool true
+  let ops ← J.field j "ops" (J.list pure)
+  let mut m : MapObj Rat Int := MapObj.new rows ag true
+  let mut snaps : Array Json := #[]
+  for o in ops do
+    let name ← J.field o "op" J.str
+    let mut out : Json := .null
+    match name with
+    | "remove" => m := m.remove (← J.field o "idx" (J.list J.nat))
+    | "select" => m := m.select (← J.field o "idx" (J.list J.nat))
+    | "select_mask" => m := m.selectMask (← J.field o "mask" (J.list J.bool))
+    | "rd" => m := m.removeDiscrepancies
+    | "group" => m := m.group
+    | "build" => m := m.buildSpline
+    | "prune" =>
+      -- positions are handed to the loop as the doubles python holds; the decisions are float decisions
+      let g := m.ensureGrouped
+      let nt ← J.fieldOpt o "nt" J.rat
+      let mm ← J.fieldOpt o "M" J.rat
+      let rowsA := g.rows.toArray
+      let chr : Nat → Int := fun i => (rowsA[i]?.map (·.chr)).getD 0
+      let phy : Nat → Float := fun i => (rowsA[i]?.map (fun r => r2f r.phy)).getD 0
+      let gen : Nat → Float := fun i => (rowsA[i]?.map (fun r => r2f r.gen)).getD 0
+      let runs := (groupMeta g.rows).map fun r => (r.2.1, r.2.2.1)
+      match pruneIndices chr phy gen runs (nt.map r2f) (mm.map r2f) with
+      | none => J.fail "prune: nt and M both None"
+      | some idx =>
+        m := g.select idx
+        out := J.ofList J.ofNat idx
+    | "interp" =>
+      let qchr ← J.field o "qchr" (J.list J.int)
+      let qphy ← J.field o "qphy" (J.list J.rat)
+      let (r, m') := m.interpGenpos qchr qphy
+      m := m'
+      out := J.ofOpt (J.ofList ofPos) r
+    | s => J.fail s!"unknown edit op {s}"
+    snaps := snaps.push <| J.obj [("rows", J.ofList ofRow m.rows), ("grouped", J.ofBool m.grouped),
+      ("meta", if m.grouped then ofMeta m.rows else .null),
+      ("congruent", J.ofBool ((congruence (construct m.rows)).all id)), ("out", out)]
+  pure (.arr snaps)
 
 def optNat (j : Json) (k : String) : J.R (Option Nat) := J.fieldOpt j k J.nat
 
@@ -222,38 +236,6 @@ def opRprob : J.Op := fun j => do
 
 /-! ### Spec oracles (evaluated on the implementation's outputs) -/
 
-/-- pairwise / sequential distance clause.  `chr` must have its equal labels contiguous. -/
-def specGdist (chr : List Int) (gen : List (Option Rat)) (d1? : Option (List (GDist Rat)))
-    (d2 : List (List (GDist Rat))) : Bool × String :=
-  let n := chr.length
-  let d1 := d1?.getD []
-  if gen.length != n || (d1?.isSome && d1.length != n) || d2.length != n || d2.any (·.length != n)
-    then (false, "shape") else
-  let c (i : Nat) : Int := chr.getD i 0
-  let g (i : Nat) : Option Rat := gen.getD i none
-  let e (i j : Nat) : GDist Rat := (d2.getD i []).getD j .nan
-  let s (i : Nat) : GDist Rat := d1.getD i .nan
-  let fin (i : Nat) : Bool := (g i).isSome
-  let gv (i : Nat) : Rat := (g i).getD 0
-  let symm := allPairs n fun i j => closeD (e i j) (e j i)
-  let diag := (List.range n).all fun i => !fin i || e i i == .fin 0
-  let across := allPairs n fun i j => (c i == c j) || e i j == .inf
-  let within := allPairs n fun i j => !(c i == c j && fin i && fin j) ||
-      closeD (e i j) (.fin (absR (gv i - gv j)))
-  let additive := (List.range n).all fun i => (List.range n).all fun j => (List.range n).all fun k =>
-      !(c i == c j && c j == c k && fin i && fin j && fin k && gv i ≤ gv j && gv j ≤ gv k) ||
-      (match e i k, e i j, e j k with
-       | .fin a, .fin b, .fin d => closeR a (b + d)
-       | _, _, _ => false)
-  let starts := d1?.isNone || (List.range n).all fun i => !(i == 0 || c (i - 1) != c i) || s i == .inf
-  let seq := d1?.isNone || (List.range n).all fun i => (i == 0 || c (i - 1) != c i) || !(fin i && fin (i - 1)) ||
-      (match s i with
-       | .fin a => closeD (.fin (absR a)) (e (i - 1) i) && (!(gv (i - 1) ≤ gv i) || a ≥ -(1 / 1000000000000))
-       | _ => false)
-  checks [("symmetric", symm), ("zero diagonal", diag), ("infinite between chromosomes", across),
-          ("pairwise = |gi - gj|", within), ("additive for ordered markers", additive),
-          ("sequential: inf at chromosome starts", starts), ("sequential agrees with pairwise", seq)]
-
 def opSpecGdist : J.Op := fun j => do
   let chr ← J.field j "chr" (J.list J.int)
   let gen ← J.field j "gen" (J.list pos)
@@ -263,39 +245,16 @@ def opSpecGdist : J.Op := fun j => do
   let self := (specGdist chr gen (d1.map fun _ => gdist1g chr gen) (gdist2g chr gen)).1
   pure <| J.obj [("ok", J.ofBool ok), ("detail", J.ofStr msg), ("self", J.ofBool self)]
 
-/-- interpolation clause, stated on the raw rows of the map (independent of `knots`/`interpIdx`):
-    own markers, linear between flanking markers, order preserving for congruent maps,
-    missing chromosomes, independence of the row order (`out2` = result for another row order) -/
-def specInterp (rows : List (Row Rat Int)) (qchr : List Int) (qphy : List Rat)
-    (out out2 : List (Option Rat)) : Bool × String :=
-  let n := qchr.length
-  if qphy.length != n || out.length != n || out2.length != n then (false, "shape") else
-  let q := qchr.zip (qphy.zip out)
-  let on (c : Int) : List (Row Rat Int) := rows.filter (·.chr == c)
-  let own := q.all fun (c, x, o) => (on c).all fun r => !(r.phy == x) || closeP o (some r.gen)
-  let flank := q.all fun (c, x, o) => (on c).all fun a => (on c).all fun b =>
-      !(a.phy < x && x < b.phy && (on c).all fun m => !(a.phy < m.phy && m.phy < b.phy)) ||
-      closeP o (some (a.gen + (b.gen - a.gen) * (x - a.phy) / (b.phy - a.phy)))
-  let congruent := rows.all fun a => rows.all fun b => !(a.chr == b.chr && a.phy < b.phy) || a.gen ≤ b.gen
-  let inRange (c : Int) (x : Rat) : Bool := (on c).any (·.phy ≤ x) && (on c).any (x ≤ ·.phy)
-  let mono := !congruent || q.all fun (c, x, o) => q.all fun (c', x', o') =>
-      !(c == c' && x ≤ x' && inRange c x && inRange c x') ||
-      (match o, o' with
-       | some a, some b => a ≤ b + 1 / 1000000000000
-       | _, _ => false)
-  let missing := q.all fun (c, _, o) => ((on c).isEmpty) == o.isNone
-  let order := (out.zip out2).all fun (a, b) => closeP a b
-  checks [("own markers return stored positions", own), ("linear between flanking markers", flank),
-          ("order preserving (congruent map)", mono), ("absent chromosome <-> missing", missing),
-          ("independent of row order", order)]
-
 def opSpecInterp : J.Op := fun j => do
   let rows ← J.field j "rows" (J.list row)
   let qchr ← J.field j "qchr" (J.list J.int)
   let qphy ← J.field j "qphy" (J.list J.rat)
   let out ← J.field j "out" (J.list pos)
   let out2 ← J.field j "out2" (J.list pos)
-  let (ok, msg) := specInterp rows qchr qphy out out2
+  let linear ← J.fieldD j "linear" J.bool true
+  let oneSided ← J.fieldD j "one_sided_missing" J.bool false
+  let (ok, msg) := if linear then specInterp rows qchr qphy out out2
+    else specInterpAnyKind rows qchr qphy out out2 oneSided
   let m := interpGenpos rows qchr qphy
   let self := (specInterp rows qchr qphy m m).1
   pure <| J.obj [("ok", J.ofBool ok), ("detail", J.ofStr msg), ("self", J.ofBool self)]
@@ -313,7 +272,7 @@ def specXoprob (h : MapKind) (rows : List (Row Rat Int)) (qchr : List Int) (qphy
   let starts := (List.range n).all fun i => !(i == 0 || c (i - 1) != c i) || p i == .fin (1 / 2)
   let inner := (List.range n).all fun i => (i == 0 || c (i - 1) != c i) ||
       (match g i, g (i - 1) with
-       | some a, some b => closeD (p i) (f2d (mapF h (r2f a - r2f b)))
+       | some a, some b => closeD Tol.std (p i) (f2d (mapF h (r2f a - r2f b)))
        | _, _ => p i == .nan)
   checks [("genpos interpolated: " ++ imsg, iok), ("one half at chromosome starts", starts),
           ("map function of consecutive distances", inner)]
@@ -333,7 +292,7 @@ def opSpecXoprob : J.Op := fun j => do
 def ops : List (String × J.Op) :=
   [("c11.mapfn", opMapfn), ("c11.spec_mapfn", opSpecMapfn), ("c11.construct", opConstruct),
    ("c11.interp", opInterp), ("c11.gdist", opGdist), ("c11.gdistp", opGdistP), ("c11.xoprob", opXoprob),
-   ("c11.rprob", opRprob),
+   ("c11.rprob", opRprob), ("c11.edit", opEdit), ("c11.interpk", opInterpK),
    ("c11.spec_gdist", opSpecGdist), ("c11.spec_interp", opSpecInterp), ("c11.spec_xoprob", opSpecXoprob)]
 
 end Drv.C11
